@@ -5,6 +5,7 @@
    tojson <tree> -> ok|badtext <canonical JSON of Json.to_json> | err
    jsonrt <tree> -> ok|badtext <tree after Json.of_json (Json.to_json v)> | err
    (first word ok iff Json.text_ok; the value is in the domain of C01_json_roundtrip iff also `rt` says ok)
+   merge <tree0>;<tree> -> ok <tree of Readings.merge_into tree0 tree>   (what UnmarshalBinary leaves in a used receiver)
    c01 <tree> -> <rt answer> TAB <tojson answer> TAB <jsonrt answer>   (the tree is parsed once)
    canonical JSON text: null true false; integers in decimal; strings as "<hex of the UTF-8 bytes>";
    [a,b]; {Name:value,...} with the member names bare, in document order *)
@@ -221,6 +222,12 @@ let handle (line:String.t) : String.t =
     | "rt" ->
       let (v, _) = parse_value (tokenize rest) in
       answer_rt v
+    | "merge" ->
+      (* merge <tree0>;<tree>: Readings.merge_into — what UnmarshalBinary of tree's encoding leaves in a receiver holding tree0 *)
+      let k = String.index rest ';' in
+      let (o, _) = parse_value (tokenize (String.trim (String.sub rest 0 k))) in
+      let (n, _) = parse_value (tokenize (String.trim (String.sub rest (k+1) (String.length rest - k - 1)))) in
+      "ok " ^ tree_string (merge_into llrp_table fuel o n)
     | "tojson" ->
       let (v, _) = parse_value (tokenize rest) in
       answer_tojson v
